@@ -35,7 +35,11 @@ CLAIM = {
          "specialized), (None,None)->true, mixed->false; are_types_bridge_compatible is `equal` for every one of the 99 non Object/Object "
          "kind pairs and for Object/Object is true when equal / bridge is java/lang/Object / bridge is an ancestor of the specialized "
          "type, false for unrelated known classes; the reference index collects exactly the 4 Methodref invoke instructions out of "
-         "all 157 Instruction variants, keyed (like entry.methods) by the visited method; "
+         "all 157 Instruction variants, keyed (like entry.methods) by the visited method; the class visitor indexes every method whose "
+         "access flags allow it to be a bridge (synthetic and (flagged bridge or not private/final/static)): visit_method, evaluated for every "
+         "combination of the access flags it reads, answers Some(visitor) for all of them, and in finish_method the insertion into entry.methods "
+         "and the recording of the call targets are guarded by nothing but `method has code` and flag conditions that skip only methods the "
+         "predicate rejects anyway; "
          "(R15.2) add_specialized_methods_to_mappings writes to the clone of its `mappings` parameter only at classes.get_mut(&bridge.class) "
          "-> methods.entry(info.get_key()?) with Occupied -> `e.get_mut().info = info` and Vacant -> `e.insert(MethodNowodeMapping::new(info))`, "
          "returns that clone, builds info as names [specialized.name, remapper_named.map_method_ref_obj(&bridge)?.name], desc "
@@ -43,7 +47,10 @@ CLAIM = {
          "official->intermediary and intermediary->named; SpecializedMethods::remap maps key and value of both maps position-wise; "
          "(R15.3) InheritanceIndex::store records both directions of the super-class edge (unless java/lang/Object) and of every interface edge "
          "(complete, unconditional walk of `interfaces`, no return before it), the class visitor passes (name, super_class, interfaces) "
-         "position-wise, get_ancestors / get_descendants push every entry found under parents / children to the work list and to the result. Premises evaluated with it: C06 R06.1/R06.3/R06.6 (BRemapper defaults, super-type search, jar super-class provider).",
+         "position-wise, the two reachability walks of the index (get_ancestors / get_descendants, anchored by role: a work-list function of the "
+         "module evaluated per constant flag argument and per map handed to it, so two functions, one function with a `descend` flag, and two "
+         "wrappers around a shared helper are the same two walks) push every entry found under parents / children to the work list and to the "
+         "result, and the ancestor search of are_types_bridge_compatible is a call of the walk over `parents`. Premises evaluated with it: C06 R06.1/R06.2/R06.3/R06.6/R06.8 (BRemapper defaults, remapper_b tables built from the right namespaces and complete, super-type search, jar super-class provider).",
  "note": "Not decided: correctness of the detection on real class hierarchies (termination of the closure on cyclic input, get_higher_method, inheritance of "
          "names inside quill's BRemapper - C06), whether leniency for classes outside the jar should test the bridge or the specialized "
          "type (the rule accepts either), InvokeDynamic bodies. Trusted: rustc HIR/typeck/const-eval; spec/c15_bridge.json.",
@@ -53,8 +60,11 @@ CLAIM = {
 }
 
 
-# rules of sibling properties that decide code on this property's own call path: the bridge name is inherited through BRemapper/super-class provider (C06)
-PREMISES = [("C06", ["R06.1", "R06.3", "R06.6"])]
+# rules of sibling properties that decide code on this property's own call path: the bridge name is inherited through BRemapper/super-class provider (C06);
+# both remappers of add_specialized_methods_to_mappings come from Mappings::remapper_b, whose class/field/method tables must be built from the
+# right namespaces (R06.2) and must contain every class that has both names, with its member tables (R06.8; seed C15-10: a class that keeps its
+# name was left out, so the bridge declared in it lost its mapped name)
+PREMISES = [("C06", ["R06.1", "R06.2", "R06.3", "R06.6", "R06.8"])]
 
 def run(F, R, tier):
     with open(SPEC) as f:
@@ -364,6 +374,12 @@ def _chain_rules(c, R, rid, gsm, spec):
             s0 = H.peel(top, refs=False) if top is not None else None
             simple = s0 is not None and s0.get("k") == "if" and "else" not in s0 and H.diverges(s0["then"]) and \
                 (id(s0["cond"]) in accounted or id(H.peel(s0["cond"], refs=False)) in accounted)
+            # `let Some(x) = <lookup> else { continue };` is the statement form of a `filter_map` step: the let-else is one of the
+            # path conditions of the insert (evaluated above as a selection by `Some(..)`), its exit is that selection
+            # (only for the steps of the callee lookup: the bound local is the callee set / the single callee)
+            simple = simple or (s0 is not None and s0.get("k") == "let" and "els" in s0 and id(s0) in accounted
+                                and any(x is ex for x in H.walk(s0["els"])) and len(H.pat_bindings(s0["pat"])) == 1
+                                and env.get(H.pat_bindings(s0["pat"])[0][0]) in ("callee-set", "callee"))
             if not simple:
                 R.inst(rid, "chain:keep:foreign-condition", False, sp=ex.get("sp"), got="`%s` inside `%s`" % (ex["k"], H.render(top)[:90] if top is not None else "?"),
                        detail="a pair that passes the keep predicate is not recorded on some path: the iteration is left before "
@@ -771,10 +787,13 @@ def _compat_rules(c, duke, R, rid, fn):
                     return "known:" + ("ancestor" if a == ("anc",) else a[1]) if (a == ("anc",) or a[0] == "class") else None
             if k == "mcall" and n0["name"] == "any" and n0["args"] and H.peel(n0["args"][0]).get("k") == "closure":
                 ad, root = _chain(n0["recv"])
-                ga = [x for x in ad if x["name"] == "get_ancestors"]
-                rest = [x["name"] for x in ad if x["name"] not in ("get_ancestors", "into_iter", "iter")]
-                if len(ga) == 1 and not rest and len(ga[0]["args"]) == 1:
-                    a = _role(ga[0]["args"][0], roles)
+                # the ancestor search: a call of the index's reachability walk over `parents` (get_ancestors(x), or a merged helper
+                # called with the flag value that selects the parents map)
+                dirs = {id(x): _walk_direction(c, fn, x) for x in ad}
+                ga = [x for x in ad if dirs[id(x)][0] == "parents"]
+                rest = [x["name"] for x in ad if dirs[id(x)][0] != "parents" and x["name"] not in ("into_iter", "iter")]
+                if len(ga) == 1 and not rest and len(dirs[id(ga[0])][1]) == 1:
+                    a = _role(dirs[id(ga[0])][1][0], roles)
                     cl = H.peel(n0["args"][0])
                     ps = [H.pat_bindings(p) for p in cl["params"]]
                     if a and a[0] == "class" and len(ps) == 1 and len(ps[0]) == 1:
@@ -909,6 +928,113 @@ def _compat_objobj(R, rid, f, closures, m, forall):
         R.inst(rid, "compat:ancestor-closure:no-foreign-condition", not foreign, sp=sp, got=foreign)
 
 
+ACCESS_ADT = "duke::tree::method::MethodAccess"
+
+
+def _access_flags_read(c, b, depth=2):
+    """names of the MethodAccess fields read in `b` and in the crate functions it calls"""
+    out, seen, work = set(), set(), [(b, 0)]
+    while work:
+        x, d = work.pop()
+        if x["key"] in seen or not isinstance(x.get("body"), dict):
+            continue
+        seen.add(x["key"])
+        for n in H.walk(x["body"]):
+            if n.get("k") == "field" and (n.get("adt") or "") == ACCESS_ADT:
+                out.add(n["name"])
+            elif n.get("k") in ("call", "mcall") and d < depth:
+                f = _callee_body(c, n)
+                if f is not None:
+                    work.append((f, d + 1))
+    return out
+
+
+def _may_be_bridge(flags, spec):
+    """can a method with these access flags satisfy the detection predicate of the specification (synthetic and (flagged bridge or
+    inheritable))?  Flags not given count as false."""
+    g = lambda f: bool(flags.get(f, False))
+    return g("is_synthetic") and (g("is_bridge") or not any(g(f) for f in spec["not_inheritable_flags"]))
+
+
+def _visited_methods(c, duke, R, rid, vm, spec):
+    """visit_method decides which methods enter the index at all.  The detection predicate is `synthetic and (flagged bridge or
+    inheritable and ..)`: a method flagged ACC_BRIDGE is a bridge whatever its other flags are.  visit_method is evaluated for every
+    combination of the access flags it reads; wherever the flags allow the method to be a bridge it must return Ok(Some(visitor))
+    (seed C15-11: `if !synthetic || private || final || static { return Ok(None) }` drops a flagged bridge that is final)."""
+    adt = duke.adts.get(ACCESS_ADT)
+    pi = [i for i, t in enumerate(vm.get("inputs") or []) if t == ACCESS_ADT]
+    if not (R.anchor(rid, "struct duke::tree::method::MethodAccess", adt) and R.anchor(rid, "visit_method: MethodAccess parameter", len(pi) == 1, sp=vm["sp"])):
+        return
+    fields = [f["name"] for f in adt["variants"][0]["fields"]]
+    read = sorted(_access_flags_read(c, vm) | {"is_synthetic"} | (({"is_bridge"} | set(spec["not_inheritable_flags"])) if _access_flags_read(c, vm) else set()))
+    inline = {b["key"]: b for b in c.bodies if b["key"].startswith(MOD + "::") and b.get("name") and b.get("params") is not None}
+    bad, undecided = [], []
+    for vals in itertools.product([False, True], repeat=len(read)):
+        flags = dict(zip(read, vals))
+        if not _may_be_bridge(flags, spec):
+            continue
+        acc = ("st", "MethodAccess", {f: (("b", flags[f]) if f in flags else T.sym("access." + f)) for f in fields})
+        args = [T.sym("arg%d" % i) for i in range(len(vm["params"]))]
+        args[pi[0]] = acc
+        v = T.Evaluator(inline=inline, max_inline=3).run_fn(vm, args)
+        some = v[0] == "v" and v[1] == "Ok" and v[2] and v[2][0][0] == "v" and v[2][0][1] == "Some"
+        none = v[0] == "err" or (v[0] == "v" and v[1] in ("Err",)) or (v[0] == "v" and v[1] == "Ok" and v[2] and v[2][0] == T.V("None"))
+        if some:
+            continue
+        what = ", ".join("%s=%s" % (k, str(x).lower()) for k, x in sorted(flags.items()))
+        (bad if none else undecided).append("%s -> %s" % (what, T.show(v)[:80]))
+    if undecided and not bad:
+        R.unrecognised(rid, "index:every-synthetic-method-visited", "result of visit_method not decided by the access flags it reads: %s" % undecided[0], vm["sp"])
+        return
+    R.inst(rid, "index:every-synthetic-method-visited", not bad, sp=vm["sp"],
+           expect="Ok(Some(visitor)) for every method that is synthetic and (flagged bridge or not private/final/static)",
+           got=(bad + undecided)[:4] or "Ok(Some(..)) for all such combinations of %s" % read,
+           detail="a method that visit_method answers with None is never indexed (neither its flags nor its call targets): a synthetic method "
+                  "flagged ACC_BRIDGE is a bridge even if it is final / static / private, inheritability belongs to the unflagged alternative only")
+
+
+def _indexed_unconditionally(R, rid, fm, keys, spec):
+    """finish_method: the insertion into entry.methods and the recording of the call targets are reached for every method whose flags
+    allow it to be a bridge (the only conditions on the way: `method has code` for the references, and conditions on the access flags
+    that only skip methods the detection predicate rejects anyway)."""
+    body = fm["body"]
+
+    def atom(n):
+        n = H.peel(n)
+        if n.get("k") == "field" and (n.get("adt") or "") == ACCESS_ADT:
+            return n["name"]
+        return None
+    for which, (rr, n) in sorted(keys.items()):
+        conds = H.path_conditions(body, n, skip_error_exits=True)
+        fs, other = [], []
+        for k, cn, p in conds:
+            if k == "iflet" and p is True and which == "reference.method_references":
+                init = H.peel(cn.get("init") or {})
+                _, path = H.place_root(init)
+                if path[-1:] == ["code"] and H.pat_variant(cn["pat"]) and H.pat_variant(cn["pat"])[1] == "Some":
+                    continue
+            if k in ("if", "after-exit"):
+                f = B.formula(cn, atom)
+                if not any(str(a).startswith("?") for a in B.atoms(f)):
+                    fs.append(f if p else ("not", f))
+                    continue
+            other.append((k, H.render(cn)[:80] if k != "arm" else "match arm", p))
+        ok = not other
+        witness = None
+        if ok and fs:
+            names = sorted(set(a for f in fs for a in B.atoms(f)) | {"is_synthetic", "is_bridge"} | set(spec["not_inheritable_flags"]))
+            for vals in itertools.product([False, True], repeat=len(names)):
+                env = dict(zip(names, vals))
+                if _may_be_bridge(env, spec) and not all(B.ev(f, env) for f in fs):
+                    ok, witness = False, env
+                    break
+        R.inst(rid, "index:%s:recorded-for-every-synthetic-method" % which, ok, sp=n.get("sp"),
+               expect="no condition on the way other than %s" % ("`if let Some(code) = method.code`" if "reference" in which else "none"),
+               got=other or (["skipped for %s" % witness] if witness else "unconditional"),
+               detail="flags and call targets of every synthetic method must reach the index: the detection predicate is evaluated on the index only")
+
+
+
 def _index_rules(c, duke, R, rid, spec):
     fm = [b for b in c.bodies if b["key"].startswith(MOD + "::") and b.get("name") == "finish_method" and "SimpleClassVisitor" in (b.get("impl_trait") or "")]
     iadt = duke.adts.get(INSN)
@@ -979,9 +1105,8 @@ def _index_rules(c, duke, R, rid, spec):
     # the partial visitor must ask for methods, and deliver them
     vm = [b for b in c.bodies if b["key"].startswith(MOD + "::") and b.get("name") == "visit_method" and "SimpleClassVisitor" in (b.get("impl_trait") or "")]
     if R.anchor(rid, "impl SimpleClassVisitor for ClassVisitorImpl :: visit_method", len(vm) == 1):
-        v = T.Evaluator().run_fn(vm[0], [T.sym("self"), T.sym("access"), T.sym("name"), T.sym("descriptor")])
-        R.inst(rid, "index:every-method-visited", v[0] == "v" and v[1] == "Ok" and v[2] and v[2][0][0] == "v" and v[2][0][1] == "Some", sp=vm[0]["sp"], got=T.show(v)[:100],
-               detail="visit_method must return Some(visitor) or the method (flags and code) is skipped")
+        _visited_methods(c, duke, R, rid, vm[0], spec)
+    _indexed_unconditionally(R, rid, fm, keys, spec)
     ints = [b for b in duke.bodies if b.get("name") == "interests" and b["key"].startswith("duke::visitor::simple::class::")]
     if R.anchor(rid, "duke::visitor::simple::class: blanket ClassVisitor::interests", len(ints) == 1):
         lit = [n for n in H.walk(ints[0]["body"]) if n.get("k") == "struct" and (n.get("adt") or "").endswith("ClassInterests")]
@@ -1318,6 +1443,232 @@ def _has_exit(n, kinds=("ret", "break", "continue")):
     return out
 
 
+# ------------------------------------------------------------------------------------ reachability walks of the inheritance index
+IDX_ADT = MOD + "::InheritanceIndex"
+
+
+def _callee_body(c, n):
+    cal = n.get("callee") or {}
+    return c.by_key.get(cal.get("inst_key")) or c.by_key.get(cal.get("key"))
+
+
+def _full_args(n):
+    return ([n["recv"]] if n.get("k") == "mcall" else []) + list(n.get("args") or [])
+
+
+def _flag_params(b):
+    return [i for i, t in enumerate(b.get("inputs") or []) if t == "bool"]
+
+
+def _call_config(b, n):
+    """constant values of the bool parameters of `b` at call site `n`: tuple of (param index, bool), or None if one is not a constant"""
+    args = _full_args(n)
+    out = []
+    for i in _flag_params(b):
+        v = H.const_value(args[i]) if i < len(args) else None
+        if not isinstance(v, bool):
+            return None
+        out.append((i, v))
+    return tuple(out)
+
+
+def _is_walk_fn(b):
+    """a function of the module with a work list: something is popped and something is pushed"""
+    if not b["key"].startswith(MOD + "::") or not b.get("name") or not isinstance(b.get("body"), dict) or b.get("params") is None:
+        return False
+    names = [n["name"] for n in H.walk(b["body"]) if n.get("k") == "mcall"]
+    return any(x in names for x in ("pop", "pop_front", "pop_back")) and any(x in names for x in ("push", "push_back", "insert", "extend"))
+
+
+_PASS = ("as_slice", "as_ref", "clone", "borrow", "iter", "into_iter", "as_deref")
+
+
+def _walk_analysis(c, b, config, site=None):
+    """The work-list walk `b` with its bool parameters fixed to `config` and (when `site` = (caller body, call node) is given) its
+    parameters traced into the arguments of that call: which map(s) of InheritanceIndex the pushed nodes come from, the pushes to
+    the work list / to the returned list as (comes from <map>.get(current), conditions, chain), early exits."""
+    from lib import c03_util as U3
+    cache = c.__dict__.setdefault("_c15_walk_cache", {})       # per loaded crate (never shared between two trees)
+    ck = (b["key"], config, (site[0]["key"], id(site[1])) if site else None)
+    if ck in cache:
+        return cache[ck]
+    pids = H.param_ids(b)
+    flags = {pids[i]: v for i, v in (config or ()) if i < len(pids)}
+
+    def flag_value(cond):
+        inner, neg = H.negate_peel(cond)
+        loc = H.local_of(inner)
+        if loc and loc[0] in flags:
+            return flags[loc[0]] != neg
+        return None
+    sel = {}
+    for n in H.walk(b["body"]):
+        if n.get("k") == "if" and H.peel(n["cond"], refs=False).get("k") != "letexpr":
+            v = flag_value(n["cond"])
+            if v is not None:
+                sel[id(n)] = v
+        elif n.get("k") == "match":
+            loc = H.local_of(n["scrut"])
+            if loc and loc[0] in flags:
+                for ai, a in enumerate(n["arms"]):
+                    r = T.match_pat(a["pat"], ("b", flags[loc[0]]), {})
+                    if r is True and "guard" not in a:
+                        sel[id(n)] = ai
+                        break
+                    if r is not False:
+                        break
+    subst = None
+    if site is not None:
+        caller = U3.Fn(c, site[0])
+        subst = {i: (caller, a) for i, a in enumerate(_full_args(site[1]))}
+    fn = U3.Fn(c, b, subst=subst, sel=sel)
+
+    def live(n):
+        """(reachable under the flag values?, remaining conditions)"""
+        rest = []
+        for k, cn, p in H.path_conditions(fn.root, n):
+            if k in ("if", "after-exit"):
+                v = flag_value(cn)
+                if v is not None:
+                    if v != bool(p):
+                        return False, []
+                    continue
+            if k == "arm" and id(cn) in sel:
+                if sel[id(cn)] != p:
+                    return False, []
+                continue
+            rest.append((k, cn, p))
+        return True, rest
+
+    def map_of(ch):
+        """the field of InheritanceIndex a chain `<param>[.field]*.<map>.get(..)..` reads, if that is all it does"""
+        hops = [h for h in ch.hops if not (h[0] == "call" and h[1] in _PASS)]
+        if ch.root[0] != "param" or [h for h in hops if h[0] == "call" and h[1] in _DROPPERS]:
+            return None
+        for i, h in enumerate(hops):
+            if h[0] != "f":
+                return None
+            if h[1] == "InheritanceIndex":
+                return h[2] if i + 1 < len(hops) and hops[i + 1][:2] == ("call", "get") else None
+        return None
+    pushes = [n for n in H.walk(fn.root) if n.get("k") == "mcall" and n["name"] in ("push", "push_back", "insert", "extend") and len(n["args"]) == 1]
+    pops = [n for n in H.walk(fn.root) if n.get("k") == "mcall" and n["name"] in ("pop", "pop_front", "pop_back")]
+    work = set(H.local_of(n["recv"])[0] for n in pops if H.local_of(n["recv"]))
+    tail = H.peel(fn.root)
+    while tail.get("k") == "block" and "tail" in tail:
+        tail = H.peel(tail["tail"])
+    res = H.local_of(tail)
+    maps = set()
+    tow, tor, other = [], [], []
+    for n in pushes:
+        ok, conds = live(n)
+        if not ok:
+            continue
+        loc = H.local_of(n["recv"])
+        ch = fn.trace(n["args"][0])
+        mf = map_of(ch)
+        maps.add(mf if mf is not None else "?" + ch.show()[:60])
+        keep = []
+        for k, cn, p in conds:
+            if (k == "iflet" and p is True) or k == "letelse":
+                # `while let Some(x) = work.pop()` / `if let Some(next) = <map>.get(x)` / `let Some(..) = .. else { break | continue }`:
+                # the loop structure of the walk itself
+                init = H.peel(cn.get("init") or {})
+                pv = H.pat_variant(cn["pat"])
+                if pv and pv[1] == "Some" and init.get("k") == "mcall":
+                    if init["name"] in ("pop", "pop_front", "pop_back") and H.local_of(init["recv"]) and H.local_of(init["recv"])[0] in work:
+                        continue
+                    if init["name"] == "get" and mf is not None and map_of(fn.trace(init)) == mf:
+                        continue
+            keep.append((k, H.render(cn)[:70], p))
+        rec = (mf is not None, keep, ch.show()[:80])
+        if loc and loc[0] in work:
+            tow.append(rec)
+        elif loc and res and loc[0] == res[0]:
+            tor.append(rec)
+        else:
+            other.append(rec)
+    exits = []
+    for lp in [n for n in H.walk(fn.root) if n.get("k") == "for"]:
+        if live(lp)[0]:
+            exits += _has_exit(lp["body"])
+    rets = [n for n in H.walk(fn.root) if n.get("k") == "ret" and live(n)[0]]
+    out = {"body": b, "config": config, "maps": maps, "to_work": tow, "to_result": tor, "other": other, "exits": exits, "rets": rets}
+    cache[ck] = out
+    return out
+
+
+def _wrapped_walk(c, b, depth=0):
+    """(walk function, (wrapper body, call node)) when `b` does nothing but call a work-list walk of the module
+    (`fn get_ancestors(&self, c) { Self::reachable(&self.parents, c) }`), else None"""
+    if b is None or not isinstance(b.get("body"), dict) or not b["key"].startswith(MOD + "::") or depth > 1:
+        return None
+    t = H.peel(b["body"])
+    while t.get("k") == "block" and "tail" in t and not t["stmts"]:
+        t = H.peel(t["tail"])
+    if t.get("k") not in ("call", "mcall"):
+        return None
+    w = _callee_body(c, t)
+    if w is not None and w is not b and _is_walk_fn(w):
+        return w, (b, t)
+    return None
+
+
+def _resolve_walk(c, caller, n):
+    """walk analysis for the call `n` inside body `caller`: the callee is a work-list walk itself or a thin wrapper around one"""
+    b = _callee_body(c, n)
+    if b is None:
+        return None, None
+    if _is_walk_fn(b):
+        cfg = _call_config(b, n)
+        return (None, b) if cfg is None else (_walk_analysis(c, b, cfg, (caller, n) if caller is not None else None), b)
+    ww = _wrapped_walk(c, b)
+    if ww:
+        w, site = ww
+        cfg = _call_config(w, site[1])
+        return (None, b) if cfg is None else (_walk_analysis(c, w, cfg, site), b)
+    return None, None
+
+
+def _index_walks(c):
+    """Every reachability walk of the inheritance index as it is used: each work-list function of the module, once per distinct
+    (constant flag arguments, map it ends up reading) at its call sites - so `get_ancestors(c)` / `get_descendants(c)`, one merged
+    `get_relatives(c, descend)` called with false / true, and two wrappers around `reachable(&self.parents | &self.children, c)`
+    are the same two walks."""
+    out, seen = [], set()
+    mod_bodies = [x for x in c.bodies if x["key"].startswith(MOD + "::") and isinstance(x.get("body"), dict)]
+    for b in mod_bodies:
+        if not _is_walk_fn(b):
+            continue
+        sites = [(caller, n) for caller in mod_bodies for n in H.walk(caller["body"])
+                 if n.get("k") in ("call", "mcall") and _callee_body(c, n) is b]
+        runs = []
+        if not sites:
+            runs.append(_walk_analysis(c, b, ()) if not _flag_params(b) else None)
+        for caller, n in sites:
+            cfg = _call_config(b, n)
+            runs.append(None if cfg is None else _walk_analysis(c, b, cfg, (caller, n)))
+        for w in runs:
+            if w is None:
+                w = {"body": b, "config": "not constant at a call site", "maps": set(), "to_work": [], "to_result": [], "other": [], "exits": [], "rets": []}
+            k = (b["key"], str(w["config"]), tuple(sorted(w["maps"])))
+            if k not in seen:
+                seen.add(k)
+                out.append(w)
+    return out
+
+
+def _walk_direction(c, caller, n):
+    """'parents' / 'children' when call `n` (inside body `caller`) is a reachability walk of the index over that map (flags as passed
+    at this call), else None; plus the non-flag arguments of the call (receiver excluded)."""
+    w, b = _resolve_walk(c, caller, n)
+    if w is None or len(w["maps"]) != 1 or list(w["maps"])[0] not in ("parents", "children"):
+        return None, []
+    fl = set(_flag_params(b))
+    rest = [a for i, a in enumerate(_full_args(n)) if i not in fl and not (n.get("k") == "mcall" and i == 0)]
+    return list(w["maps"])[0], rest
+
+
 def r15_3(c, R):
     from lib import c03_util as U3
     rid = "R15.3"
@@ -1423,46 +1774,28 @@ def r15_3(c, R):
                 got.append(pn[ch.root[1]] if ch.root[0] == "param" and not hops and ch.root[1] < len(pn) else "?(%s)" % ch.show()[:40])
             R.inst(rid, "visit_class:store(name, super_class, interfaces)", got == ["name", "super_class", "interfaces"], sp=n.get("sp"),
                    expect=["name", "super_class", "interfaces"], got=got)
-    # closures
+    # closures: the reachability walks of the index, by role.  A walk is a (function, constant flag arguments) pair: `get_ancestors(c)` /
+    # `get_descendants(c)` and one merged `get_relatives(c, descend)` called with `false` / `true` are the same two walks.
+    walks = _index_walks(c)
     for fname, mapf in (("get_ancestors", "parents"), ("get_descendants", "children")):
-        bs = [b for b in c.bodies if b.get("name") == fname and (b.get("impl_ty") or "") == IDX]
-        if not R.anchor(rid, "fn InheritanceIndex::%s" % fname, len(bs) == 1):
+        ws = [w for w in walks if w["maps"] == {mapf}]
+        if not R.anchor(rid, "fn InheritanceIndex::%s" % fname, len(ws) >= 1):
             continue
-        b = bs[0]
-        fn = U3.Fn(c, b)
-        pushes = [n for n in H.walk(fn.root) if n.get("k") == "mcall" and n["name"] in ("push", "push_back", "insert", "extend") and len(n["args"]) == 1]
-        pops = [n for n in H.walk(fn.root) if n.get("k") == "mcall" and n["name"] in ("pop", "pop_front", "pop_back")]
-        work = set(H.local_of(n["recv"])[0] for n in pops if H.local_of(n["recv"]))
-        tail = H.peel(fn.root)
-        while tail.get("k") == "block" and "tail" in tail:
-            tail = H.peel(tail["tail"])
-        res = H.local_of(tail)
-        tow, tor, other = [], [], []
-        for n in pushes:
-            loc = H.local_of(n["recv"])
-            ch = fn.trace(n["args"][0])
-            hops = [h for h in ch.hops if not (h[0] == "call" and h[1] in ("as_slice", "as_ref", "clone", "borrow", "iter", "into_iter"))]
-            from_map = ch.root[:2] == ("param", 0) and len(hops) >= 2 and hops[0][0] == "f" and hops[0][2] == mapf and \
-                hops[1][:2] == ("call", "get") and not [h for h in hops if h[0] == "call" and h[1] in _DROPPERS]
-            conds = [(k, H.render(cn)[:70], p) for k, cn, p in H.path_conditions(fn.root, n)
-                     if not (k == "iflet" and p is True and (".pop" in H.render(cn) or ".%s.get(" % mapf in H.render(cn)))]
-            rec = (from_map, conds, ch.show()[:80])
-            if loc and loc[0] in work:
-                tow.append(rec)
-            elif loc and res and loc[0] == res[0]:
-                tor.append(rec)
-            else:
-                other.append(rec)
-        okw = len(tow) == 1 and tow[0][0] and not tow[0][1]
-        okr = len(tor) == 1 and tor[0][0] and not tor[0][1]
-        R.inst(rid, "%s:every-%s-entry-continues-the-search" % (fname, mapf), okw, sp=b["sp"],
-               expect="work_list.push(x) for every x in self.%s.get(current), unconditionally" % mapf, got=tow)
-        R.inst(rid, "%s:every-%s-entry-is-returned" % (fname, mapf), okr, sp=b["sp"],
-               expect="result.push(x) for every x in self.%s.get(current), unconditionally" % mapf, got=tor)
-        lps = [n for n in H.walk(fn.root) if n.get("k") == "for"]
-        exits = []
-        for lp in lps:
-            exits += _has_exit(lp["body"])
-        R.inst(rid, "%s:no-early-exit" % fname, not exits and not [n for n in H.walk(fn.root) if n.get("k") == "ret"], sp=b["sp"],
-               got=[H.render(x) for x in exits], nontrivial=False)
+        for i, w in enumerate(ws):
+            nm = fname if i == 0 else "%s#%d" % (fname, i + 1)
+            b, tow, tor = w["body"], w["to_work"], w["to_result"]
+            okw = len(tow) == 1 and tow[0][0] and not tow[0][1]
+            okr = len(tor) == 1 and tor[0][0] and not tor[0][1]
+            R.inst(rid, "%s:every-%s-entry-continues-the-search" % (nm, mapf), okw, sp=b["sp"],
+                   expect="work_list.push(x) for every x in self.%s.get(current), unconditionally" % mapf, got=tow)
+            R.inst(rid, "%s:every-%s-entry-is-returned" % (nm, mapf), okr, sp=b["sp"],
+                   expect="result.push(x) for every x in self.%s.get(current), unconditionally" % mapf, got=tor)
+            R.inst(rid, "%s:no-early-exit" % nm, not w["exits"] and not w["rets"], sp=b["sp"],
+                   got=[H.render(x) for x in w["exits"]], nontrivial=False)
+    # a work-list function that belongs to the index (method of it, takes it, or reads one of its maps) must read exactly one map
+    mixed = [w for w in walks if len(w["maps"]) != 1 and ((w["body"].get("impl_ty") or "") == IDX_ADT or w["maps"] & {"parents", "children"}
+                                                         or any("InheritanceIndex" in (t or "") for t in w["body"].get("inputs") or []))]
+    for w in mixed:
+        R.unrecognised(rid, "walk:%s" % w["body"]["name"], "work-list walk of InheritanceIndex that does not read exactly one of parents / children "
+                       "(flags %s): %s" % (w["config"], sorted(w["maps"])), w["body"]["sp"])
     R.floor(rid, 14)
